@@ -118,6 +118,191 @@ def explore(ctx):
                 ctx.corr_mismatch(case, "Gallina skip_glyph differs from SkipExportGlyphsFilter output")
         if meta:
             ctx.sample({"skip": meta[0]["skipExportGlyphs"], "level": meta[0]["level"], "glyphs": meta[0]["font"]["glyphs"][:2]})
+    interpolatable_section(ctx)
+
+
+def flat_contours(tt, name):
+    """the rendered contours of a glyph of a compiled font, components resolved"""
+    from fontTools.pens.recordingPen import DecomposingRecordingPen
+    gs = tt.getGlyphSet()
+    pen = DecomposingRecordingPen(gs)
+    gs[name].draw(pen)
+    contours, cur = [], None
+    for op, args in pen.value:
+        if op == "moveTo":
+            cur = [args[0]]
+        elif op == "lineTo":
+            cur.append(args[0])
+        elif op in ("qCurveTo", "curveTo"):
+            cur.extend(a for a in args if a is not None)
+        elif op in ("closePath", "endPath"):
+            contours.append(cur); cur = None
+    return contours
+
+
+def same_contour(a, b, tol):
+    if len(a) != len(b):
+        return False
+    n = len(a)
+    for seq in (b, b[::-1]):
+        for r in range(n):
+            if all(abs(a[k][0] - seq[(k + r) % n][0]) <= tol and abs(a[k][1] - seq[(k + r) % n][1]) <= tol for k in range(n)):
+                return True
+    return False
+
+
+def same_rendering(ca, cb, tol=2):
+    """same multiset of contours up to tol units, start point and direction"""
+    if len(ca) != len(cb):
+        return False
+    rest = list(cb)
+    for a in ca:
+        hit = next((k for k, b in enumerate(rest) if same_contour(a, b, tol)), None)
+        if hit is None:
+            return False
+        rest.pop(hit)
+    return True
+
+
+def masters_only(ctx, rng, base, masters, skip, users, how, lib, i):
+    import ufo2ft
+    case = {"font": jsonable(base), "last_master": jsonable(masters[-1]), "skipExportGlyphs": skip, "given_by": how, "lib": lib,
+            "level": "compileInterpolatableTTFs"}
+    ctx.count()
+    ctx.klass("ufos:%s" % how)
+    if users:
+        ctx.nontriv(("ufos", i, ctx.scale))
+    try:
+        full = list(ufo2ft.compileInterpolatableTTFs([build_font(m, lib) for m in masters]))
+        ms = [dict(m, lib=dict(m.get("lib", {}), **({"public.skipExportGlyphs": list(skip)} if how == "ufo-libs" else {})))
+              for m in masters]
+        kw = {"skipExportGlyphs": list(skip)} if how == "argument" else {}
+        skipped = list(ufo2ft.compileInterpolatableTTFs([build_font(m, lib) for m in ms], **kw))
+    except Exception as e:
+        ctx.spec_failure(case, "compileInterpolatableTTFs raised %s: %s\n%s" % (type(e).__name__, e, traceback.format_exc()[-1200:]))
+        return
+    for k, (t0, t1) in enumerate(zip(full, skipped)):
+        want_order = [n for n in t0.getGlyphOrder() if n not in skip]
+        if t1.getGlyphOrder() != want_order:
+            ctx.spec_failure(dict(case, master=k), "glyph order with skipping %r, expected %r" % (t1.getGlyphOrder(), want_order))
+            return
+        for n in want_order:
+            if t0["hmtx"][n][0] != t1["hmtx"][n][0] or not same_rendering(flat_contours(t0, n), flat_contours(t1, n), tol=1):
+                ctx.spec_failure(dict(case, master=k, glyph=n), "master %d: remaining glyph %r differs from the build with nothing skipped" % (k, n))
+                return
+
+
+def interpolatable_section(ctx):
+    """skipExportGlyphs in designspace builds (argument / designspace lib / UFO libs): the variable font built with
+    skipping must render every remaining glyph like the one built without, at every source location -- including the
+    locations of sparse layer masters that only the skipped component has"""
+    import ufo2ft
+    from fontTools.ttLib import TTFont
+    from fontTools.varLib import instancer
+    from harness import dsgen
+    rng = ctx.subrng("skip-ds")
+    AXES = [("Weight", "wght", 100, 100, 900, [100, 900], 500),           # default at the minimum
+            ("Slant", "slnt", -12, 0, 0, [0, -12], -6),                   # default at the maximum: other masters negative
+            ("Width", "wdth", 50, 100, 150, [100, 50, 150], 75)]          # default in the middle
+    for i in range(ctx.budget(12, 80)):
+        lib = ["ufoLib2", "defcon"][i % 2]
+        axis = AXES[i % 3]
+        aname, tag, lo, df, hi, locs, mid = axis
+        base = dsgen.base_master(rng, kinds=("line",), max_depth=2, anchors=False,
+                                 classes=["identity", "scale", "shear", "mirror_x", "general_small"])
+        masters = [base] + [dsgen.perturb(rng, base, k) for k in range(1, len(locs))]
+        names = [g["name"] for g in base["glyphs"]]
+        used = sorted({b for g in base["glyphs"] for b, _ in g["components"]})
+        if not used:
+            ctx.klass("ds:no-components(skipped)")
+            continue
+        skip = [rng.choice(used)]
+        if rng.random() < 0.3:
+            extra = [n for n in names if n not in skip]
+            if len(extra) > 2:
+                skip.append(rng.choice(extra))
+        users = [g["name"] for g in base["glyphs"] if g["name"] not in skip and any(b in skip for b, _ in g["components"])]
+        sparse = i % 4 != 3
+        # designspace builds take the list from the designspace lib only (documented: the argument is overwritten and
+        # the keys of the individual UFOs are ignored); argument / UFO libs apply to compileInterpolatableTTFs(ufos)
+        how = ["designspace-lib", "designspace-lib", "argument", "ufo-libs"][(i // 3) % 4]
+        if how in ("argument", "ufo-libs"):
+            masters_only(ctx, rng, base, masters, skip, users, how, lib, i)
+            continue
+
+        def build(with_skip):
+            ms = [dict(m, lib=dict(m.get("lib", {}))) for m in masters]
+            if with_skip and how == "ufo-libs":
+                for m in ms:
+                    m["lib"]["public.skipExportGlyphs"] = list(skip)
+            ds, fonts = dsgen.make_designspace(rng, ms, lib, axes=[(aname, tag, lo, df, hi)],
+                                               locations=[{aname: v} for v in locs], instances=False)
+            if sparse:
+                from fontTools.designspaceLib import SourceDescriptor
+                layer = fonts[0].newLayer("mid")
+                for nm in [skip[0]]:
+                    src_g = next(g for g in base["glyphs"] if g["name"] == nm)
+                    gl = layer.newGlyph(nm)
+                    gl.width = fonts[0][nm].width
+                    pen = gl.getPointPen()
+                    for c in src_g["contours"]:
+                        pen.beginPath()
+                        for k, (x, y, t) in enumerate(c):
+                            # deliberately NOT the linear blend of the full masters
+                            pen.addPoint((int(x) + 90 + 7 * k, int(y) - 70 + 5 * k), segmentType=t)
+                        pen.endPath()
+                    for b, t in src_g["components"]:
+                        pen.addComponent(b, tuple(float(v) for v in t))
+                sd = SourceDescriptor()
+                sd.font, sd.layerName, sd.location = fonts[0], "mid", {aname: mid}
+                sd.name, sd.familyName, sd.styleName = "master.mid", "Fam", "Mid"
+                ds.addSource(sd)
+            kw = {}
+            if with_skip and how == "argument":
+                kw["skipExportGlyphs"] = list(skip)
+            if with_skip and how == "designspace-lib":
+                ds.lib["public.skipExportGlyphs"] = list(skip)
+            vf = ufo2ft.compileVariableTTF(ds, **kw)
+            buf = io.BytesIO(); vf.save(buf)
+            return buf.getvalue()
+        case = {"font": jsonable(base), "last_master": jsonable(masters[-1]), "axis": list(axis[:5]), "master_locations": locs,
+                "sparse_layer_at": mid if sparse else None, "sparse_layer_glyphs": [skip[0]] if sparse else [],
+                "skipExportGlyphs": skip, "given_by": how, "lib": lib, "level": "compileVariableTTF"}
+        ctx.count()
+        ctx.klass("ds:%s/%s%s" % (tag, how, "/sparse-component-master" if sparse else ""))
+        if users:
+            ctx.nontriv(("ds", i, ctx.scale))
+        try:
+            full, skipped = build(False), build(True)
+        except Exception as e:
+            ctx.spec_failure(case, "compileVariableTTF raised %s: %s\n%s" % (type(e).__name__, e, traceback.format_exc()[-1200:]))
+            continue
+        t0, t1 = TTFont(io.BytesIO(full)), TTFont(io.BytesIO(skipped))
+        want_order = [n for n in t0.getGlyphOrder() if n not in skip]
+        if t1.getGlyphOrder() != want_order:
+            ctx.spec_failure(case, "glyph order with skipping %r, expected %r" % (t1.getGlyphOrder(), want_order))
+            continue
+        c0 = {u: n for u, n in t0.getBestCmap().items() if n not in skip}
+        if t1.getBestCmap() != c0:
+            ctx.spec_failure(case, "cmap with skipping %r, expected %r" % (t1.getBestCmap(), c0))
+        for v in locs + ([mid] if sparse else []) + [(lo + hi) / 2 + 1]:
+            try:
+                i0 = instancer.instantiateVariableFont(TTFont(io.BytesIO(full)), {tag: v})
+                i1 = instancer.instantiateVariableFont(TTFont(io.BytesIO(skipped)), {tag: v})
+            except Exception as e:
+                ctx.spec_failure(dict(case, location=v), "instantiating raised %s: %s" % (type(e).__name__, e))
+                break
+            bad = None
+            for n in want_order:
+                if abs(i0["hmtx"][n][0] - i1["hmtx"][n][0]) > 1:
+                    bad = (n, "advance %r vs %r" % (i1["hmtx"][n][0], i0["hmtx"][n][0])); break
+                a, b = flat_contours(i0, n), flat_contours(i1, n)
+                if not same_rendering(a, b):
+                    bad = (n, "renders %r, without skipping %r" % (b[:3], a[:3])); break
+            if bad:
+                ctx.spec_failure(dict(case, location=v, glyph=bad[0]),
+                                 "at %s=%s remaining glyph %r differs from the build with nothing skipped: %s" % (tag, v, bad[0], bad[1]))
+                break
 
 
 def compare_binaries(ctx, case, desc, skip, lib, i):
